@@ -2580,11 +2580,18 @@ where
 {
     match **typ {
         Type::Record(_) => {
+            let mut fields = row_iter(typ);
+            let mut len = 0;
             type_field_iter(typ).next().is_none()
-                && row_iter(typ).enumerate().all(|(i, field)| {
+                && fields.by_ref().enumerate().all(|(i, field)| {
+                    len = i + 1;
                     let name = field.name.as_ref();
                     name.starts_with('_') && name[1..].parse() == Ok(i)
                 })
+                // `(a)` reads back as `a` and `( | r)` is not a type: only closed rows with
+                // zero or at least two positional fields have tuple syntax
+                && len != 1
+                && matches!(**fields.current_type(), Type::EmptyRow)
         }
         _ => false,
     }
